@@ -74,7 +74,9 @@ func NewConstInt[T constraints.Signed](val T, w Width) Const {
 		val >>= 8
 	}
 
-	if val != 0 && (val != -1 || bs[len(bs)-1] < 128) {
+	// Remaining bits of val have to be sign extension of the top stored bit.
+	negative := len(bs) > 0 && bs[len(bs)-1] >= 128
+	if (!negative && val != 0) || (negative && val != -1) {
 		panic(fmt.Sprintf("value of type %T doesn't fit to value of width %d: %d",
 			val, w, valCopy))
 	}
